@@ -287,6 +287,13 @@ def explore(harness, tier, budget_s, per_path_s, journal, seed=0, max_paths=1000
     from crosshair.util import (IgnoreAttempt, UnexploredPath, CrosshairUnsupported, CrossHairInternal,
                                 NotDeterministic)
 
+    import signal
+
+    def _on_alarm(signum, frame):
+        raise Hang()
+
+    signal.signal(signal.SIGALRM, _on_alarm)
+    hang_s = max(20.0, per_path_s * 2)
     root = RootNode()
     if seed:
         root._random = random.Random(seed)
@@ -309,9 +316,18 @@ def explore(harness, tier, budget_s, per_path_s, journal, seed=0, max_paths=1000
                 handling = None
                 try:
                     try:
-                        with ResumedTracing():
-                            harness(V)
+                        signal.setitimer(signal.ITIMER_REAL, hang_s)
+                        try:
+                            with ResumedTracing():
+                                harness(V)
+                        finally:
+                            signal.setitimer(signal.ITIMER_REAL, 0)
                         entry['v'] = 'ok'
+                    except Hang:
+                        # the code under test did not come back (no solver interaction, so CrossHair's own path
+                        # deadline never fired): keep the witness, the concrete replay decides whether it is a hang
+                        entry['v'] = 'unknown'
+                        entry['why'] = 'hang_suspect'
                     except PropFail as f:
                         entry['v'] = 'fail'
                         entry['sig'] = str(f.sig)
